@@ -2,6 +2,7 @@ package checks
 
 import (
 	"fmt"
+	"os"
 	"strings"
 
 	"mvdan.cc/sh/v3/syntax"
@@ -41,12 +42,17 @@ func c05(c *vc.Ctx) {
 	space := synSpace{Depth: 1, LayoutDepth: 1, Corpus: true, AllVariantsDeep: true}
 	cfgs := reducedConfigs()
 	pairDepth := vc.Pick(c, 0, 1)
-	c.Rule = space.describe() + fmt.Sprintf("; plus every PAIR of comment deviations (trailing comment / comment line at two different gaps) of the depth<=%d templates (depth 1 limited to templates with <=8 gaps); %d printer configurations; oracle: with Minify off the sequence of comment texts (right-trimmed, in source order) of Parse(Print(src)) equals that of Parse(src); with Minify only a '#!' comment at 1:1 survives; distinct = distinct non-empty comment sequences", pairDepth, len(cfgs))
+	c.Rule = space.describe() + fmt.Sprintf("; plus every PAIR of comment deviations (trailing comment / comment line at two different gaps) of the depth<=%d templates of the grammar (depth 1 limited to templates with <=8 gaps); " + c05DescribeSets(c.Quick()) + "; %d printer configurations; oracle: with Minify off the sequence of comment texts (right-trimmed, in source order) of Parse(Print(src)) equals that of Parse(src); with Minify only a '#!' comment at 1:1 survives; distinct = distinct non-empty comment sequences", pairDepth, len(cfgs))
 	gen := func(emit0 func(synCase)) {
 		// the programs of the first generator; the second one skips them so
 		// that every (program, variant) is one case with one key
 		first := map[string]bool{}
 		emit := func(t synCase) { first[t.Src] = true; emit0(t) }
+		if os.Getenv("VERIF_C05_PART") == "w" { // development aid: second generator only
+			c.CapNote("VERIF_C05_PART=w: first generator skipped")
+			c05GenSets(c, first, emit0)
+			return
+		}
 		genSyn(c, space, emit)
 		// pairs of comments
 		seen := map[string]bool{}
@@ -88,6 +94,7 @@ func c05(c *vc.Ctx) {
 		key := t.Variant + " " + fmt.Sprintf("%q", t.Src)
 		if t.Kind == 5 {
 			key = "w:" + key // cases of the second generator (c05_gen.go)
+			c.Count("w_cases", 1)
 		}
 		f, err := ws.Parse(t.Src, lang)
 		if err != nil {
